@@ -187,8 +187,17 @@ def main():
     out.append("  [" + ";\n   ".join(lines) + "]%N.\n")
     write_if_changed(os.path.join(GEN, "GenOracle.v"), "\n".join(out))
     import json
+    status = component_status()
+    # the run-time library, translated method by method (GenUtil.v); a method the translator cannot read leaves the
+    # last good translation in place and is reported for the properties about the run-time behaviour
+    try:
+        import gen_util
+        write_if_changed(os.path.join(GEN, "GenUtil.v"), gen_util.generate(read("crates/lexgen_util/src/lib.rs")))
+    except Exception as e:           # gencode.Untranslatable and parse errors alike
+        for pr in ("C01", "C03", "C04", "C05", "C06", "C07", "C08", "C09", "C10", "C14", "C15"):
+            status.setdefault(pr, "lexgen_util/src/lib.rs: %s" % e)
     with open(os.path.join(GEN, "status.json"), "w") as f:
-        json.dump(component_status(), f)
+        json.dump(status, f)
     print("gen_coq: %d tables, %d builtins, MAX_GUARD_SIZE=%d, tab=%d, %d oracle predicates, %d width runs"
           % (len(tables), len(names), max_guard, tab, len(preds), len(widths)))
 
